@@ -61,14 +61,14 @@ func evalTerms(query string, terms []string) map[string]string {
 }
 
 type rvModel struct {
-	Kind       int
-	Bits       uint64
-	F          float64
-	S          string
-	B          bool
-	Typ        int
-	Wall, Ext  uint64
-	Loc        int
+	Kind      int
+	Bits      uint64
+	F         float64
+	S         string
+	B         bool
+	Typ       int
+	Wall, Ext uint64
+	Loc       int
 }
 
 func parseBV(s string) (uint64, bool) {
@@ -308,6 +308,22 @@ func doReplay(w *World, pr *PropRun, fl *Failure) (path string, confirmed bool, 
 		}
 		content["model_inputs"] = ins
 	}
+	ranFamily := false
+	if fl.O.Func != "" {
+		for _, fam := range replayFamilies {
+			if fam.match.MatchString(fl.O.ID) {
+				ranFamily = true
+			}
+		}
+	}
+	if !ranFamily {
+		if ok, detail := runSearchHarness(fl.O.ID); detail != nil {
+			for k, v := range detail {
+				content[k] = v
+			}
+			confirmed = ok
+		}
+	}
 	if fl.O.Func != "" {
 		for _, fam := range replayFamilies {
 			if fam.match.MatchString(fl.O.ID) {
@@ -527,4 +543,47 @@ func cmdReplay(args []string) int {
 		return 1
 	}
 	return 0
+}
+
+// ---------------- static search harnesses (/verif/replay/families.json) ----------------
+// For obligations whose models live in ghost/heap abstractions, replay is a bounded concrete search: an in-package Go test
+// that states the PROPERTY on the real code over a small domain and prints "CONFIRMED: <input>" when it is violated.
+
+type searchFamily struct {
+	Match  string `json:"match"`
+	Pkg    string `json:"pkg"`
+	File   string `json:"file"`   // template under /verif/replay/
+	Run    string `json:"run"`    // -run pattern
+	Inject string `json:"inject"` // file name to inject into the package
+}
+
+func runSearchHarness(oblID string) (bool, map[string]interface{}) {
+	b, err := os.ReadFile(filepath.Join(verifDir, "replay", "families.json"))
+	if err != nil {
+		return false, nil
+	}
+	var fams []searchFamily
+	if json.Unmarshal(b, &fams) != nil {
+		return false, nil
+	}
+	for _, fam := range fams {
+		re, err := regexp.Compile(fam.Match)
+		if err != nil || !re.MatchString(oblID) {
+			continue
+		}
+		src, err := os.ReadFile(filepath.Join(verifDir, "replay", fam.File))
+		if err != nil {
+			continue
+		}
+		out, _ := runGoTest(fam.Pkg, fam.Inject, string(src), fam.Run)
+		detail := map[string]interface{}{"harness": fam.Pkg + "/" + fam.Inject + " (bounded concrete search, injected with go test -overlay from /verif/replay/" + fam.File + ")",
+			"harness_pkg": fam.Pkg, "harness_file": fam.Inject, "harness_source": string(src), "harness_run": fam.Run, "search_output": tailStr(out, 2000)}
+		if strings.Contains(out, "CONFIRMED:") {
+			detail["failing_input"] = extractLine(out, "CONFIRMED:")
+			detail["found_by"] = "bounded concrete search on the real code (the obligation's model lives in ghost/heap abstractions)"
+			return true, detail
+		}
+		return false, detail
+	}
+	return false, nil
 }
